@@ -197,8 +197,8 @@ def children(node):
     """Yield child nodes (dicts with 'k') of an expression/statement node."""
     if isinstance(node, dict):
         for k, v in node.items():
-            if k in ("loc",):
-                continue
+            if k in ("loc", "pat", "params"):
+                continue  # patterns are reached explicitly through arm["pat"] etc., never by traversal
             if isinstance(v, dict):
                 yield v
             elif isinstance(v, list):
@@ -294,6 +294,18 @@ def expr_text(n):
         return expr_text(n.get("start")) + ".." + expr_text(n.get("end"))
     if k == "let":
         return "let " + pat_text(n["pat"]) + "=" + expr_text(n.get("init"))
+    if k == "for":
+        return "for " + pat_text(n["pat"]) + " in " + expr_text(n["iter"]) + expr_text(n["body"])
+    if k == "while":
+        return "while " + expr_text(n["cond"]) + expr_text(n["body"])
+    if k == "loop":
+        return "loop" + expr_text(n["body"])
+    if k == "break":
+        return "break"
+    if k == "continue":
+        return "continue"
+    if k == "array":
+        return "[" + ",".join(expr_text(a) for a in n["elems"]) + "]"
     return "<" + str(k) + ">"
 
 
